@@ -413,5 +413,5 @@ def cached(
     if isinstance(__x, Cache):
         return lambda evaluatable: cached(evaluatable, __x)
     else:
-        cache = cache or MemoryCache()
+        cache = cache if cache is not None else MemoryCache()
         return Cached(__x, cache)
